@@ -18,7 +18,7 @@ type FaultSpec struct {
 	Kind   string `json:"kind"`   // api: race e410 e422 e500 timeout-before timeout-after; hook: h500 h429 refused garbage
 }
 
-var apiFaultKinds = []string{"race", "e410", "e422", "e500", "timeout-before", "timeout-after", "e404"}
+var apiFaultKinds = []string{"race", "e410", "e422", "e500", "timeout-before", "timeout-after", "e404", "e409"}
 var hookFaultKinds = []string{"h500", "h429", "refused", "garbage"}
 
 // c12Scenario builds one of the scenario shapes used for fault enumeration.
@@ -221,6 +221,8 @@ func runC12(scn *Scn, f Factory, seedTrace []int, fault FaultSpec, extra []Fault
 					return nil
 				case "e404":
 					return &vs.Fault{Code: 404, Reason: "NotFound", Message: "injected"}
+				case "e409":
+					return &vs.Fault{Code: 409, Reason: "Conflict", Message: "injected"}
 				case "e410":
 					return &vs.Fault{Code: 410, Reason: "Gone", Message: "injected"}
 				case "e422":
@@ -456,6 +458,16 @@ func PropC12(c *vs.Case, f Factory, kind string, fixed bool) error {
 		case hit.Def.Resource == scn.Cfg.ParentResource && hit.Verb == "update":
 			why = "optimistic-lock conflict on a parent update"
 		default:
+			either = true
+		}
+	case fault.Kind == "e409":
+		// a conflict is documented as benign for updates (the object moved on, a new event follows); a DELETE
+		// or CREATE of a child that is refused with 409 is a failure like any other
+		child := hit.Def.Resource != scn.Cfg.ParentResource && hit.Def.Resource != "controllerrevisions"
+		if child && hit.Verb == "delete" {
+			expectErr = true
+			why = "409 on " + hit.String()
+		} else {
 			either = true
 		}
 	case fault.Kind == "e410", fault.Kind == "e404":
